@@ -72,7 +72,8 @@ Inductive iop :=
 | IRefresh.                      (* Cache.UpdateMetadata; last step of a case only *)
 
 Inductive iobs :=
-| OIngest (r : rclass) (d : tdump)   (* result and Query dump afterwards *)
+| OIngest (r : rclass) (d : option tdump)   (* result and Query dump afterwards; [None]: the dump
+                                              is the one of the previous step (kept short) *)
 | ORefresh (panicked : bool).
 
 (** * Known-finding classes (narrow predicates over the input and the
@@ -198,7 +199,8 @@ Fixpoint check_ingest (i : nat) (c : cstate) (before : tdump) (steps : list (iop
   : list (nat * N) :=
   match steps with
   | [] => []
-  | (IMsg n, OIngest r d) :: rest =>
+  | (IMsg n, OIngest r od) :: rest =>
+      let d := match od with Some x => x | None => before end in
       let '(c', g) := ingest cur_flags c n in
       let v1 := if rclass_eqb r (rclass_of g) && tdump_eqb d (model_dump c') then [] else [(i, 1%N)] in
       let v2 := match r with
